@@ -113,6 +113,26 @@ def run(prop, tier, seed, known):
                 fails.append('evaluate(): total error is not substitution + miss + false alarm by name: %s' % {k_: round(float(v), 4) for k_, v in ev.items()})
             if len(fails) > 5:
                 break
+        # a common time offset changes nothing, also far from the origin (times are exact multiples of 2^-7 s; the reference has frames one hop
+        # outside the estimate's range, which stay empty estimate frames wherever the excerpt sits on the time axis)
+        hop_ = 2.0 ** -7
+        for trial_ in range(6):
+            k_ = rng.randint(5, 8)
+            rt_s = np.array([8.0 + i_ * hop_ for i_ in range(k_)])
+            et_s = rt_s[1:-1] if trial_ % 2 == 0 else np.array([8.0 + hop_ + i_ * 2 * hop_ for i_ in range((k_ - 1) // 2)])
+            rf_s = [np.array([440.0 * 2 ** (rng.randint(-12, 12) / 12.0) for _ in range(rng.randint(1, 2))]) for _ in rt_s]
+            ef_s = [np.array([440.0 * 2 ** (rng.randint(-12, 12) / 12.0) for _ in range(rng.randint(1, 2))]) for _ in et_s]
+            for i_ in range(min(len(ef_s), len(rf_s) - 1)):
+                if rng.random() < 0.6:
+                    ef_s[i_] = rf_s[i_ + 1].copy()
+            base_m = [float(x) for x in M.metrics(rt_s, rf_s, et_s, ef_s)]
+            for sh_ in (0.5, 992.0, 2000.0, 20000.0):
+                n += 1
+                got_m = [float(x) for x in M.metrics(rt_s + sh_, rf_s, et_s + sh_, ef_s)]
+                if any(abs(a_ - b_) > 1e-9 for a_, b_ in zip(base_m, got_m)):
+                    fails.append('metrics change under a common time shift of %s s: %s vs %s (reference frames %s, estimate frames %s)'
+                                 % (sh_, [round(x, 4) for x in base_m[:7]], [round(x, 4) for x in got_m[:7]], rt_s.tolist(), et_s.tolist()))
+                    break
         # a side without any frame is valid: an empty estimate misses everything (miss = total = 1 when the reference has pitches), an empty
         # reference scores 0 throughout
         rt_ = np.array([0.0, 0.25, 0.5])
